@@ -1,6 +1,6 @@
 (** C05 - The interaction stream is a chronological, faithful event log of presence (removal-enabled graphs). *)
 From DynVerif Require Import Base Graph Spec.
-From DynVerif.proofs Require Import CoreInv C01Facts LogInv.
+From DynVerif.proofs Require Import CoreInv C01Facts LogInv ReplayFacts.
 From Coq Require Import Sorting.Sorted Sorting.Permutation.
 
 Lemma reach_InvLog dir cs : InvLog (run_calls (G0 dir) cs).
@@ -64,6 +64,24 @@ Proof.
   split; [vm_compute; auto|]. split; [lia|]. vm_compute. intros [H|[]]. discriminate.
 Qed.
 Print Assumptions C05_closed_refuted.
+
+(** REPLAY: replaying the pair's events ('+' = appears, following '-' = vanishes, unclosed '+' = that single instant)
+    reconstructs the presence relation -- PARTIAL: for graphs all of whose runs of two or more instants are closed
+    ([all_closed]; false exactly in the presence of the unclosed two-instant run of K-C05-1, where replay loses the
+    second instant: ReplayFacts.replay_unclosed) *)
+Theorem C05_replay_partial : forall (dir : bool) (cs : list call) (k : Z * Z) (tau : Z),
+  let g := run_calls (G0 dir) cs in
+  all_closed g -> replay (pair_events g k) None tau = present g k tau.
+Proof.
+  intros dir cs k tau g Hc. unfold present. apply replay_presence; auto.
+  - apply (reach_flags dir cs).
+  - intros k'. apply (Inv_reach dir cs k').
+  - apply reach_InvLog.
+Qed.
+Print Assumptions C05_replay_partial.
+Theorem C05_replay_refuted : exists g k tau, replay (pair_events g k) None tau <> mem tau (runs_of g k).
+Proof. exists g_unclosed, (1, 2), 2. vm_compute. discriminate. Qed.
+Print Assumptions C05_replay_refuted.
 
 Example C05_example :
   map (fun e => (ev_time e, snd e))
